@@ -12,7 +12,8 @@ from ..model import cap, tls, pcapio
 
 PROP = "C12"
 LEVEL = "exploration"
-BASES = ["tls12", "tls13", "quic", "mixed"]
+BASES = ["tls12", "tls13", "quic", "mixed", "snap"]
+SNAP_CUT = 5     # base 'snap': two packets were captured without their last 5 bytes (captured length < original length)
 T0 = Fraction(100000)
 STEP = Fraction(1, 8)
 
@@ -29,7 +30,7 @@ ALTS = {
 
 def describe(tier):
     return {
-        "rule": "bases TLS 1.2, TLS 1.3, QUIC, mixed; every container variant within 2 deviations of the default over: 5 formats, 7 "
+        "rule": "bases TLS 1.2, TLS 1.3, QUIC, mixed, and a capture with two snap-cut packets (captured length < original length); every container variant within 2 deviations of the default over: 5 formats, 7 "
                 "if_tsresol values, 3 if_tsoffset values, 6 kinds of unrelated block each inserted at EVERY position (one execution "
                 "per position), 4 option sets. non-trivial: a variant whose output equals the base output and holds data; "
                 "distinct = distinct (base, variant, position)",
@@ -47,6 +48,9 @@ def describe(tier):
 
 def base_capture(name, seed):
     flows = []
+    if name == "snap":
+        flows.append(scen.tls_flow({"version": tls.TLS12, "suite": 0x009C, "history": [("c", 30), ("s", 50), ("s", 61), ("s", 72), ("c", 20)]}, seed, 0))
+        flows.append(scen.quic_flow({"suite": 0x1301, "script": [("c", [(0, 30)]), ("s", [(0, 44)]), ("s", [(0, 55)]), ("c", [(0, 9)])]}, seed, 2))
     if name in ("tls12", "mixed"):
         flows.append(scen.tls_flow({"version": tls.TLS12, "suite": 0x009C, "history": [("c", 30), ("s", 50)]}, seed, 0))
     if name in ("tls13", "mixed"):
@@ -58,13 +62,27 @@ def base_capture(name, seed):
     lines = []
     for f in flows:
         lines += f.keylog()
+    if name == "snap":
+        # the last but one data packet the TLS server sent and the last but one datagram of the QUIC server are snap-cut
+        for cid in (0, 2):
+            srv = [p for p in pkts if p.conn == cid and p.dir == "s" and p.payload]
+            srv[-2].frame = SnapFrame(srv[-2].frame)
     return pkts, lines
+
+
+class SnapFrame(bytes):
+    """marks a frame of which the capture holds all but the last SNAP_CUT bytes"""
+
+
+def items_of(pkts):
+    return [pcapio.pkt(p.ts, p.frame[:-SNAP_CUT], orig_len=len(p.frame)) if isinstance(p.frame, SnapFrame) else pcapio.pkt(p.ts, p.frame)
+            for p in pkts]
 
 
 def build(pkts, var, pos=None):
     """(file bytes, extra args) or None if the combination cannot be expressed"""
     fmt = var.get("format", "pcapng_le")
-    items = cap.to_items(pkts)
+    items = items_of(pkts)
     if fmt.startswith("pcap_"):
         if any(k in var for k in ("tsresol", "tsoffset", "block", "options", "pre_idb")):
             return None
